@@ -40,4 +40,110 @@ theorem decompressTimestamp_zero (d : Dec) (r : Bits) :
     decompressTimestamp d (false :: r) = .ok ({ d with t := (d.t + d.delta) % P32 }, r) := by
   simp only [decompressTimestamp, dodBitN]
 
+theorem decompressTimestamp_of (d : Dec) (bs r' r2 : Bits) (n bits : Nat)
+    (h : dodBitN bs = some (n, r')) (hn : n ≠ 0) (hr : readBits n r' = some (bits, r2)) :
+    decompressTimestamp d bs =
+      if n = 32 ∧ bits = 0xFFFFFFFF then .eof
+      else
+        .ok ({ d with
+          delta := (((d.delta : Int) + (if n ≠ 32 ∧ 2 ^ (n - 1) < bits then (bits : Int) - 2 ^ n else bits)) % (P32 : Int)).toNat,
+          t := (d.t + (((d.delta : Int) + (if n ≠ 32 ∧ 2 ^ (n - 1) < bits then (bits : Int) - 2 ^ n else bits)) % (P32 : Int)).toNat) % P32 }, r2) := by
+  rw [decompressTimestamp, h]
+  split
+  · rename_i heq; cases heq
+  · rename_i heq; cases heq; exact absurd rfl hn
+  · rename_i heq
+    cases heq
+    simp only [hr]
+
+theorem dec7 (dod : Int) (h1 : -63 ≤ dod) (h2 : dod ≤ 64) :
+    (if 7 ≠ 32 ∧ 2 ^ (7 - 1) < int64Bits dod 7 % 2 ^ 7 then ((int64Bits dod 7 % 2 ^ 7 : Nat) : Int) - 2 ^ 7
+      else ((int64Bits dod 7 % 2 ^ 7 : Nat) : Int)) = dod := by
+  simp only [int64Bits, P64]
+  split <;> split <;> omega
+
+theorem dec9 (dod : Int) (h1 : -255 ≤ dod) (h2 : dod ≤ 256) :
+    (if 9 ≠ 32 ∧ 2 ^ (9 - 1) < int64Bits dod 9 % 2 ^ 9 then ((int64Bits dod 9 % 2 ^ 9 : Nat) : Int) - 2 ^ 9
+      else ((int64Bits dod 9 % 2 ^ 9 : Nat) : Int)) = dod := by
+  simp only [int64Bits, P64]
+  split <;> split <;> omega
+
+theorem dec12 (dod : Int) (h1 : -2047 ≤ dod) (h2 : dod ≤ 2048) :
+    (if 12 ≠ 32 ∧ 2 ^ (12 - 1) < int64Bits dod 12 % 2 ^ 12 then ((int64Bits dod 12 % 2 ^ 12 : Nat) : Int) - 2 ^ 12
+      else ((int64Bits dod 12 % 2 ^ 12 : Nat) : Int)) = dod := by
+  simp only [int64Bits, P64]
+  split <;> split <;> omega
+
+theorem dec32 (dod : Int) (h1 : -4294967296 < dod) (h2 : dod < 4294967296) :
+    ((int64Bits dod 32 % 2 ^ 32 : Nat) : Int) = dod % 4294967296 := by
+  simp only [int64Bits, P64]
+  split <;> omega
+
+/-- the decoder state after a timestamp with delta-of-delta `dod`. -/
+def tsDec (d : Dec) (dod : Int) : Dec :=
+  { d with delta := (((d.delta : Int) + dod) % (P32 : Int)).toNat,
+           t := (d.t + (((d.delta : Int) + dod) % (P32 : Int)).toNat) % P32 }
+
+theorem ts_step (d : Dec) (dod : Int) (r : Bits) (hd : d.delta < P32)
+    (hr1 : -(P32 : Int) < dod) (hr2 : dod < (P32 : Int))
+    (hg : (-2047 ≤ dod ∧ dod ≤ 2048) ∨ dod % (P32 : Int) ≠ (P32 : Int) - 1) :
+    decompressTimestamp d (tsBits dod ++ r) = .ok (tsDec d dod, r) := by
+  rw [tsBits]
+  split
+  · rename_i h0
+    subst h0
+    rw [List.cons_append, List.nil_append, decompressTimestamp_zero, tsDec]
+    have : (((d.delta : Int) + 0) % (P32 : Int)).toNat = d.delta := by
+      simp only [P32] at hd ⊢; omega
+    rw [this]
+  · split
+    · rename_i h0 h1
+      rw [decompressTimestamp_of d _ _ r 7 _ (by simp only [List.cons_append, dodBitN]; rfl) (by omega)
+        (readBits_writeBits _ _ _), dec7 dod h1.1 h1.2, if_neg (by omega), tsDec]
+    · split
+      · rename_i h0 _ h1
+        rw [decompressTimestamp_of d _ _ r 9 _ (by simp only [List.cons_append, dodBitN]; rfl) (by omega)
+          (readBits_writeBits _ _ _), dec9 dod h1.1 h1.2, if_neg (by omega), tsDec]
+      · split
+        · rename_i h0 _ _ h1
+          rw [decompressTimestamp_of d _ _ r 12 _ (by simp only [List.cons_append, dodBitN]; rfl) (by omega)
+            (readBits_writeBits _ _ _), dec12 dod h1.1 h1.2, if_neg (by omega), tsDec]
+        · rename_i h0 _ _ h1
+          have hb := dec32 dod (by simp only [P32] at hr1; omega) (by simp only [P32] at hr2; omega)
+          have hne : ¬ (32 = 32 ∧ int64Bits dod 32 % 2 ^ 32 = 0xFFFFFFFF) := by
+            simp only [P32] at hg; omega
+          rw [decompressTimestamp_of d _ _ r 32 _ (by simp only [List.cons_append, dodBitN]; rfl) (by omega)
+            (readBits_writeBits _ _ _), if_neg hne, if_neg (by omega), tsDec]
+          have : ((d.delta : Int) + ((int64Bits dod 32 % 2 ^ 32 : Nat) : Int)) % (P32 : Int)
+              = ((d.delta : Int) + dod) % (P32 : Int) := by
+            simp only [P32]; omega
+          rw [this]
+
+theorem toS32_cases (x : Nat) :
+    (x < 2147483648 ∧ toS32 x = (x : Int)) ∨ (2147483648 ≤ x ∧ toS32 x = (x : Int) - 4294967296) := by
+  rw [toS32]
+  by_cases h : x < 2147483648
+  · left; exact ⟨h, if_pos h⟩
+  · right; exact ⟨by omega, if_neg h⟩
+
+theorem dodOf_range (c : Enc) (t : Nat) (hd : c.tDelta < P32) :
+    -(P32 : Int) < dodOf c t ∧ dodOf c t < (P32 : Int) := by
+  simp only [dodOf, P32] at hd ⊢
+  rcases toS32_cases ((t % 4294967296 + 4294967296 - c.t) % 4294967296) with ⟨_, e1⟩ | ⟨_, e1⟩ <;>
+    rcases toS32_cases c.tDelta with ⟨_, e2⟩ | ⟨_, e2⟩ <;> rw [e1, e2] <;> clear e1 e2 <;> omega
+
+/-- the decoder's reconstruction of delta and t agrees with the encoder's wrapped arithmetic. -/
+theorem tsDec_dodOf (c : Enc) (d : Dec) (t : Nat) (ht : t < P32) (hct : c.t < P32)
+    (h1 : d.t = c.t) (h2 : d.delta = c.tDelta) :
+    tsDec d (dodOf c t) = { d with delta := (t % P32 + P32 - c.t) % P32, t := t % P32 } := by
+  have hdelta : (((d.delta : Int) + dodOf c t) % (P32 : Int)).toNat = (t % P32 + P32 - c.t) % P32 := by
+    rw [h2]
+    simp only [dodOf, P32] at ht hct ⊢
+    rcases toS32_cases ((t % 4294967296 + 4294967296 - c.t) % 4294967296) with ⟨_, e1⟩ | ⟨_, e1⟩ <;>
+      rcases toS32_cases c.tDelta with ⟨_, e2⟩ | ⟨_, e2⟩ <;> rw [e1, e2] <;> clear e1 e2 <;> omega
+  rw [tsDec, hdelta, h1]
+  have : (c.t + (t % P32 + P32 - c.t) % P32) % P32 = t % P32 := by
+    simp only [P32] at ht hct ⊢; omega
+  rw [this]
+
 end SigModel.Lemmas.C08
